@@ -520,10 +520,12 @@ def enum_values(rng, fields, cap=40, rng_struct=None):
             return [["N"]] + one()
         outs = [["L", "0"]]
         o = one()
-        for x in o[:3]:
+        # element structures are sampled, not taken from the front, so that full and empty elements both occur
+        picks = o if len(o) <= 3 else [o[0], o[-1]] + rs.sample(o[1:-1], 1)
+        for x in picks:
             outs.append(["L", "1"] + x)
-        for x in o[:2]:
-            for y in o[:2]:
+        for x in picks:
+            for y in picks:
                 outs.append(["L", "2"] + x + y)
         return outs
 
